@@ -61,9 +61,55 @@ func (p *C06) sweepCase(seed uint64, run int) *Case {
 	return c
 }
 
+// longCase: a piece that lasts longer than 2^28 (and sometimes 2^32) ticks
+// although every single instance stays below 2^28 ticks.
+func (p *C06) longCase(seed uint64, run int) *Case {
+	r := model.NewRand(seed, fmt.Sprintf("C06/long/%d", run))
+	n := 2 + r.Intn(20)
+	if run%2 == 1 {
+		n = 17 + r.Intn(8) // more than 2^32 ticks in all
+	}
+	flavour := run % 3 // 0: a tempo change on every instance, 1: no control change at all, 2: some
+	if run%4 == 1 {
+		flavour = (run / 4) % 2 // wrap-around totals: with and without control changes
+	}
+	tones := model.Pick(r, []string{"", "m7", "maj7", "7"})
+	var sb strings.Builder
+	for i := 0; i < n; i++ {
+		beats := 100000 + r.Intn(179000)
+		if run%2 == 1 {
+			beats = 262144 + r.Intn(17000)
+		}
+		if run%4 == 1 {
+			// seventeen instances that add up to 2^32-256 ticks, then more: the
+			// total passes 2^32 by less than 2^28
+			beats = 263172
+			if i >= 17 {
+				beats = 1 + r.Intn(100000)
+			}
+			n = 18 + run%3
+		}
+		fmt.Fprintf(&sb, "- chord:\n    degree: \"%s\"\n    name: \"%s\"\n  values:\n    - \"%d\"\n", model.Pick(r, []string{"1", "4", "5", "b7"}), tones, beats)
+		if flavour == 0 || (flavour == 2 && r.Chance(1, 3)) {
+			fmt.Fprintf(&sb, "  bpm: %d\n", 60+r.Intn(120))
+		}
+		if run%4 != 1 && r.Chance(1, 5) {
+			fmt.Fprintf(&sb, "- values:\n    - \"%d\"\n", 1000+r.Intn(200000))
+		}
+	}
+	c := &Case{Property: "C06", Kind: "tracks", Seed: seed, Run: run, Labels: []string{"very-long-piece"}}
+	for _, tn := range []int{1, 2, 3, 6, 8, 32} {
+		c.Steps = append(c.Steps, Step{Step: simrt.Step{Argv: []string{"write", "--track", fmt.Sprint(tn)}, Seed: r.U64(), Stdin: &simrt.Stream{Data: []byte(sb.String())}}, Note: fmt.Sprint(tn)})
+	}
+	return c
+}
+
 func (p *C06) Generate(seed uint64, run int) *Case {
 	if run < 16 {
 		return p.sweepCase(seed, run)
+	}
+	if run < 40 {
+		return p.longCase(seed, run)
 	}
 	r := model.NewRand(seed, fmt.Sprintf("C06/%d", run))
 	o := &model.DocOpts{MaxInsts: 1 + r.Intn(10), ChordNames: p.w.ChordNames, Dynamics: p.w.Dynamics, Settings: r.Chance(2, 3), Meta: r.Chance(1, 2), Unicode: r.Chance(1, 4),
@@ -180,7 +226,18 @@ func (p *C06) Evaluate(env *Env, c *Case) (*Outcome, error) {
 	add := func(sig, detail string) {
 		out.Findings = append(out.Findings, Finding{Signature: sig, Detail: detail + fmt.Sprintf("; document %q", first(data, 400))})
 	}
+	// an idle track of a piece of 2^28 ticks or more cannot carry its
+	// end-of-track delta in an SMF: refusing such a track count is not judged
+	tooLong := false
+	if durs, _, ok := docDurations(data); ok {
+		_, hi := tickBounds(durs, 960)
+		tooLong = hi.Cmp(big.NewInt(1<<28)) >= 0
+	}
 	for i := 1; i < len(c.Steps); i++ {
+		if tooLong && base.OK() && !out.Results[i].OK() && out.Results[i].Crash() == "" && out.Results[i].Hang() == "" {
+			p.stats.Probe("c06:too-long-for-an-idle-track-refused")
+			continue
+		}
 		if out.Results[i].OK() != base.OK() {
 			add("C06/status-differs", fmt.Sprintf("`crd %s` exit=%d but `crd %s` exit=%d", strings.Join(c.Steps[0].Argv, " "), base.Exit, strings.Join(c.Steps[i].Argv, " "), out.Results[i].Exit))
 		}
